@@ -194,6 +194,8 @@ def run(repo, rep, tier):
                          "sinks_examined": eng.sinks, "accessor_classes": [c.name for c in acc_classes]})
 
     vivifying_lookups(repo, rep)
+    from .c07 import kernel_reach, process_wide_settings_in_kernels
+    process_wide_settings_in_kernels(repo, rep, eng, kernel_reach(repo, eng), "R-C18-8")
     # ---- R-C18-5: interpreter-wide settings ------------------------------------------------------------
     rep.rule("R-C18-5", "call-time changes of interpreter-wide settings (warning filters, numpy error state, xarray options, "
                         "environment, locale, RNG seed) happen only inside the context manager that restores them")
